@@ -159,9 +159,24 @@ def check(case):
             th = math.degrees(math.acos(max(-1, min(1, rh[2]))))
             ph = math.degrees(math.atan2(rh[1], rh[0]))
             A = build.mm.Angle
-            m.compute_far_field(A(th, 0, 1), A(ph, 0, 1), pwr=P, dist=r)
-            et = complex(np.ravel(m.far_field.e_theta)[0])
-            ep = complex(np.ravel(m.far_field.e_phi)[0])
+            # the direction is asked for as one entry of a 2 x 3 table (as a user would), at a position that
+            # depends on the direction; the field arrays are documented as indexed (phi, theta)
+            it_ = int(th * 7) % 2
+            ip_ = int(abs(ph) * 7) % 3
+            dth = 7.0
+            if th - it_ * dth < 0:
+                it_ = 0
+            if ground and th + (1 - it_) * dth > 89.0:
+                it_ = 1
+                if th - dth < 0:
+                    dth = th / 2.0
+            m.compute_far_field(A(th - it_ * dth, dth, 2), A(ph - ip_ * 25.0, 25.0, 3), pwr=P, dist=r)
+            ffe, ffp = np.array(m.far_field.e_theta), np.array(m.far_field.e_phi)
+            if ffe.shape != (3, 2) or ffp.shape != (3, 2):
+                fails.append(('far-field:array-shapes', 'e_theta %s, e_phi %s for 2 zenith x 3 azimuth angles' % (ffe.shape, ffp.shape)))
+                break
+            et = complex(ffe[ip_, it_])
+            ep = complex(ffp[ip_, it_])
             _, that, phat = rf.sph(th, ph)
             Eff = (et * that + ep * phat) * np.exp(-1j * k * r)
             allp = np.concatenate([o['segs'] for o in topo.objs])
